@@ -197,8 +197,8 @@ func (P *Prog) valuePredicates() []*predClass {
 type entryPath struct {
 	p        *Path
 	conds    []Fact // p.conds plus the conditions of helper calls that succeeded on the way (expanded)
-	accepted bool  // iteration continues (entry accepted)
-	label    int64 // when labelKnown
+	accepted bool   // iteration continues (entry accepted)
+	label    int64  // when labelKnown
 	known    bool
 	other    bool // all label comparisons false: unregistered label
 }
